@@ -1,4 +1,5 @@
 import QM.ConvShape
+import QM.ConvCmd
 import QM.Conform
 /-! # C02 — each supported key adds exactly its documented podman option, value intact
 
@@ -81,5 +82,37 @@ theorem C02_image_shape (E : Env) (path : Str) (u svc : SUnit) (r : Str) (h : fr
       ++ addBool u (s "Image") Gen.tbl_from_image_unit_bool_keys
       ++ lookupAllArgs u (s "Image") (s "PodmanArgs") ++ [(lookup u (s "Image") (s "Image")).getD []] :=
   ⟨fromImage_ok E path u svc r h, by simp [imageCmd, baseCmd, podmanArgs]⟩
+
+
+/-! ### whole commands of the other six converters
+
+For every converter the generated service holds an Exec line that is the *rendering* (`quote_words`) of an explicit
+argument vector (`HasExec`, QM/ConvCmd.lean): fixed parts, the key tables as contiguous blocks in table order, the
+blocks of name=value and word-list keys, `PodmanArgs` after all key-derived options, and the positional arguments
+last.  Handler results that depend on other units (network, volume, mount, pod references, user mappings) are
+existentially quantified.  By `HasExec.splits` (= C01) systemd splits that line into exactly this vector, so each
+documented option reaches podman as `flag value` with the value's exact text (`C02_string_option_reaches_podman`).
+The shape theorems are `Cv.C02_<type>_shape` in QM/ConvCmd.lean. -/
+
+
+/-- end to end for a single-valued table key of a `.network` unit: systemd's splitting of the generated ExecStart line
+    contains `flag value` as adjacent arguments -/
+theorem C02_string_option_reaches_podman (E : Env) (path : Str) (u svc : SUnit) (n k f v : Str)
+    (h : fromNetwork E path u = .ok (svc, n))
+    (hr : (k, f) ∈ Gen.tbl_from_network_unit_string_keys) (hv : lookup u (s "Network") k = some v) (hne : v.isEmpty = false) :
+    ∃ cmd, HasExec svc "ExecStart" cmd ∧ [f, v] <:+: cmd ∧
+      ((∀ w ∈ cmd, ∀ c ∈ w, c ≠ '\x00') → ∃ raw, (s "ExecStart", raw) ∈ entriesOf svc (s "Service") ∧
+        P.splitAll P.execFlags raw = some cmd) := by
+  obtain ⟨sub, hx⟩ := C02_network_shape E path u svc n h
+  refine ⟨_, hx, ?_, fun hw => hx.splits hw⟩
+  have hi := rowString_infix u (s "Network") _ k f v hr hv hne
+  obtain ⟨a, b, e⟩ := hi
+  refine ⟨baseCmd E u (s "Network") ++ [s "network", s "create", s "--ignore"]
+      ++ addBool u (s "Network") Gen.tbl_from_network_unit_bool_keys ++ a, b
+      ++ addAllStrings u (s "Network") Gen.tbl_from_network_unit_inline_lookup_and_add_all_strings
+      ++ sub ++ addKeys "--opt" (lookupAllKeyVal u (s "Network") (s "Options"))
+      ++ addKeys "--label" (lookupAllKeyVal u (s "Network") (s "Label")) ++ podmanArgs u (s "Network") ++ [n], ?_⟩
+  rw [← e]
+  simp only [List.append_assoc]
 
 end Cv
